@@ -148,11 +148,21 @@ def sweep(names, props):
             continue
         row = {}
         try:
-            for p in props:
+            def one(p):
                 rc, out = sh(f"./check {p} --tier quick", cwd=VERIF, timeout=7200)
-                v = [l for l in out.splitlines() if l.startswith(("VIOLATION", "INCONCLUSIVE"))]
                 sig = [l.strip().split(": ")[0] for l in out.splitlines() if l.startswith("  ")][:2]
-                row[p] = {"rc": rc, "sig": sig}
+                return p, {"rc": rc, "sig": sig}
+            # the first check also rebuilds the executor against the patched tree; the others then run four at a time
+            first, rest = props[0], props[1:]
+            row[first] = one(first)[1]
+            from concurrent.futures import ThreadPoolExecutor
+            with ThreadPoolExecutor(max_workers=int(os.environ.get("SWEEP_JOBS", "4"))) as ex:
+                for p, r in ex.map(one, rest):
+                    row[p] = r
+            # a check that came back inconclusive under the parallel load is repeated alone
+            for p in props:
+                if row[p]["rc"] == 2:
+                    row[p] = one(p)[1]
         finally:
             sh("git checkout -- .", cwd="/repo")
             shutil.rmtree(os.path.join(VERIF, "replays"), ignore_errors=True)
